@@ -242,6 +242,7 @@ void run_life(int fd, const std::vector<std::string>& toks) {
             observe(tok, "");
         } else if (c == 'j') {
             bool held = (cur != 'w' && cur != 'f');
+            g_true_calls.store(tok == "jt" ? (1L << 50) : 0);   // jt: run_condition() stays true
             g_free.store(true);
             if (held) sem_post(&g_go);
             if (helper) finish_helper();
@@ -333,8 +334,13 @@ std::string run_case(const std::string& op, long watchdog_ms, const std::vector<
 }  // namespace
 
 int main() {
+    // after this many schedules cut by the watchdog the rest of the input is answered `skipped`
+    // (a broken implementation must not cost one time-out per schedule)
+    const char* lim = std::getenv("H_LIFE_MAX_HANGS");
+    long max_hangs = lim ? std::atol(lim) : 1000000, hangs = 0;
     std::string line;
     while (std::getline(std::cin, line)) {
+        if (hangs >= max_hangs) { std::cout << "skipped\n"; continue; }
         std::istringstream is(line);
         std::string op, w;
         std::vector<std::string> toks;
@@ -343,7 +349,10 @@ int main() {
         if (is >> w) watchdog = std::atol(w.c_str());
         while (is >> w) toks.push_back(w);
         if ((op != "life" && op != "free") || watchdog <= 0) { std::cout << "bad-op\n"; continue; }
-        std::cout << run_case(op, watchdog, toks) << "\n";
+        std::string res = run_case(op, watchdog, toks);
+        // an expected hang (short watchdog, chosen by the check) does not count
+        if (res.size() >= 4 && res.compare(res.size() - 4, 4, "hang") == 0 && watchdog > 1000) ++hangs;
+        std::cout << res << "\n";
         std::cout.flush();
     }
     return 0;
